@@ -192,7 +192,7 @@ class DictArray(StorageBase):
             return
         path = self._path()
         path.parent.mkdir(parents=True, exist_ok=True)
-        dump(self._dict, path)
+        dump(dict(self._dict), path)  # persist the contents, not a (manager bound) proxy
 
     def load(self) -> None:
         """Load the dict storage from disk."""
@@ -200,7 +200,7 @@ class DictArray(StorageBase):
             return
         if not self.folder.exists():
             return
-        self._dict = load(self._path())
+        self._dict.update(load(self._path()))  # keep the (possibly shared) mapping
 
     @property
     def dump_in_subprocess(self) -> bool:
